@@ -116,6 +116,7 @@ package format
 //@   safety[C02]
 //@   ensures[!C02] !t.big && 0 <= i && i < len(t.table) / 3 ==> result1 && result0.Tag == smallTag(mem(t.table), lo(t.table), i)
 //@   ensures[!C02] t.big && 0 <= i && i < len(t.table) / 6 ==> result1 && result0.Tag == bigTag(mem(t.table), lo(t.table), i)
+//@   ensures[!C02] i < 0 || i >= ite(t.big, len(t.table) / 6, len(t.table) / 3) ==> !result1
 //@   noalloc[C17]
 
 // ---- list table
